@@ -45,5 +45,18 @@ CHECKS["C02"] = dict(
     parts=[dict(bin="vh", part="c02", shards=16, budget=dict(quick=100, thorough=1500)),
            dict(bin="vsched-race", part="c02s", shards=16, budget=dict(quick=100, thorough=1500))])
 
+CHECKS["C03"] = dict(
+    level="model_checking", engine="xstate", design_ref="DESIGN.md §5 C03",
+    technique="explicit-state BFS to fixpoint (relative-time state keys) plus exact-key depth-bounded BFS on the real TokenLimiter vs an exact-rational leaky-bucket debt monitor",
+    text="For each rate set (integral and non-integral time per token, burst up to 5x average, 2s period, multi-rate) and clock phase, every history of Req(amount)/Advance(d) over the alphabet is explored on the real limiter to a fixpoint of the relative-time state space (histories of unbounded length, incl. traffic sustained beyond the entry lifetime); the monitor debt D<=burst+1 is equivalent to the interval bound.",
+    note="frozen clock, one instant per call (A2); translation invariance assumed for the relative keys and cross-checked by the exact-key search; one source (multi-source behaviour is C14)",
+    parts=[dict(bin="vh", part="c03", shards=dict(quick=12, thorough=21), budget=dict(quick=100, thorough=1500))])
+CHECKS["C13"] = dict(
+    level="model_checking", engine="xstate", design_ref="DESIGN.md §5 C13",
+    technique="same reachable-state graph as C03; differential continuation probes (real code against itself) from every reachable state",
+    text="From every reachable limiter state and every rejected request q: probe outcomes after q (once and three times) equal those without q for every amount (nothing debited, also multi-rate); retry after exactly X-Retry-In is admitted; an idle source regains its burst after burst*(period/average); an over-burst request is refused with an error and no delay.",
+    note="as C03",
+    parts=[dict(bin="vh", part="c03", shards=dict(quick=12, thorough=21), budget=dict(quick=100, thorough=1500))])
+
 NOT_APPLICABLE = [dict(property_id=p, reason="check not built yet in this revision (work in progress; see DESIGN.md for the plan)")
                   for p in ALL if p not in CHECKS]
